@@ -154,6 +154,141 @@ pub fn test_nest(c: &NestCase) -> Verdict {
     }
 }
 
+/// Nested isolation: an outer guard whose body runs several inner guards with `strlen` probes in between. The counts
+/// sampled at the probes (relative to the first probe) may not depend on what the inner guards' bodies allocate:
+/// the same program is built once with allocating inner bodies and once with `(q . 42)` bodies (declared costs
+/// recomputed for each), and the two sample sequences are compared.
+#[derive(Serialize, Deserialize, Clone, Debug)]
+pub struct IsoCase {
+    pub ext_outer: u32,
+    pub ext_inner: u32,
+    pub inner: Vec<u8>,
+    pub flags: u32,
+}
+
+struct ProbeSampler {
+    inner: clvmr::chia_dialect::ChiaDialect,
+    samples: std::cell::RefCell<Vec<(usize, usize, usize)>>,
+}
+
+impl clvmr::dialect::Dialect for ProbeSampler {
+    fn quote_kw(&self) -> u32 {
+        self.inner.quote_kw()
+    }
+    fn apply_kw(&self) -> u32 {
+        self.inner.apply_kw()
+    }
+    fn softfork_kw(&self) -> u32 {
+        self.inner.softfork_kw()
+    }
+    fn softfork_extension(&self, ext: u32) -> clvmr::dialect::OperatorSet {
+        self.inner.softfork_extension(ext)
+    }
+    fn flags(&self) -> clvmr::chia_dialect::ClvmFlags {
+        self.inner.flags()
+    }
+    fn gc_candidate(&self, a: &clvmr::allocator::Allocator, op: clvmr::NodePtr) -> bool {
+        self.inner.gc_candidate(a, op)
+    }
+    fn op(&self, a: &mut clvmr::allocator::Allocator, op: clvmr::NodePtr, args: clvmr::NodePtr, max_cost: u64, ext: clvmr::dialect::OperatorSet) -> clvmr::reduction::Response {
+        if a.atom_len(op) == 1 && a.atom(op).as_ref() == [13] {
+            self.samples.borrow_mut().push((a.atom_count(), a.pair_count(), a.heap_size()));
+        }
+        self.inner.op(a, op, args, max_cost, ext)
+    }
+    fn allow_unknown_ops(&self) -> bool {
+        self.inner.allow_unknown_ops()
+    }
+}
+
+fn iso_program(c: &IsoCase, allocating: bool) -> Option<Dag> {
+    let q = |d: &mut Dag, v: u32| {
+        let one = d.atom(&[1]);
+        d.pair(one, v)
+    };
+    let call = |d: &mut Dag, op: u8, args: &[u32]| {
+        let o = d.atom(&[op]);
+        let l = d.list(args);
+        d.pair(o, l)
+    };
+    let mut nil_env = Dag::new();
+    nil_env.nil();
+    let pre = c.flags & !F_LIMIT_SOFTFORK;
+    // BODY = (c PROBE (c G_1 (c PROBE (c G_2 ... (q . ())))))
+    let mut body = Dag::new();
+    let n0 = body.nil();
+    let mut acc = q(&mut body, n0);
+    for kind in &c.inner {
+        let mut ib = Dag::new();
+        if allocating {
+            match kind % 3 {
+                0 => {
+                    let v = ib.atom(b"hello world");
+                    let qv = q(&mut ib, v);
+                    call(&mut ib, 11, &[qv]);
+                }
+                1 => {
+                    let v1 = ib.atom(b"abcdefghij");
+                    let v2 = ib.atom(b"0123456789");
+                    let a1 = q(&mut ib, v1);
+                    let a2 = q(&mut ib, v2);
+                    call(&mut ib, 14, &[a1, a2]);
+                }
+                _ => {
+                    let v1 = ib.atom(&[7]);
+                    let v2 = ib.atom(&[8]);
+                    let a1 = q(&mut ib, v1);
+                    let a2 = q(&mut ib, v2);
+                    call(&mut ib, 4, &[a1, a2]);
+                }
+            }
+        } else {
+            let v = ib.atom(&[42]);
+            q(&mut ib, v);
+        }
+        let g = nest_guards(&ib, &nil_env, 1, c.ext_inner, pre)?;
+        let gi = body.append(&g);
+        let inner_acc = call(&mut body, 4, &[gi, acc]);
+        let s = body.atom(b"xyz");
+        let qs = q(&mut body, s);
+        let probe = call(&mut body, 13, &[qs]);
+        acc = call(&mut body, 4, &[probe, inner_acc]);
+    }
+    let _ = acc;
+    nest_guards(&body, &nil_env, 1, c.ext_outer, pre)
+}
+
+pub fn test_iso(c: &IsoCase) -> Verdict {
+    let run = |allocating: bool| -> Option<(Out, Vec<(usize, usize, usize)>)> {
+        let prog = iso_program(c, allocating)?;
+        let mut a = clvmr::allocator::Allocator::new();
+        let p = crate::dag::build(&mut a, &prog).ok()?;
+        let e = a.nil();
+        let d = ProbeSampler { inner: clvmr::chia_dialect::ChiaDialect::new(crate::util::flags(c.flags)), samples: Default::default() };
+        let r = crate::engine::guard(|| clvmr::run_program::run_program(&mut a, &d, p, e, 0));
+        let mut i = Interner::new();
+        let out = crate::util::to_out(&a, &mut i, r);
+        Some((out, d.samples.into_inner()))
+    };
+    let (Some((oa, sa)), Some((ob, sb))) = (run(true), run(false)) else { return Verdict::discard() };
+    if !oa.is_ok() || !ob.is_ok() {
+        // the inner bodies are valid programs and the costs are exact: both variants must complete
+        return Verdict::fail(format!("a nest of guards with exact declared costs did not complete: allocating bodies {:?}, constant bodies {:?}\n case {c:?}", oa.kind(), ob.kind()));
+    }
+    if sa.len() != sb.len() || sa.len() != c.inner.len() {
+        return Verdict::fail(format!("probe count differs: {} vs {} (expected {})\n case {c:?}", sa.len(), sb.len(), c.inner.len()));
+    }
+    let rel = |s: &[(usize, usize, usize)]| -> Vec<(i64, i64, i64)> { s.iter().map(|x| (x.0 as i64 - s[0].0 as i64, x.1 as i64 - s[0].1 as i64, x.2 as i64 - s[0].2 as i64)).collect() };
+    if rel(&sa) != rel(&sb) {
+        return Verdict::fail(format!(
+            "inside an outer guard, the allocator counts observed between inner guards depend on what the inner guards allocated (they must be restored at each inner exit): relative (atoms,pairs,heap) at the probes with allocating bodies {:?}, with constant bodies {:?}\n case {c:?}",
+            rel(&sa),
+            rel(&sb)
+        ));
+    }
+    Verdict::pass(c.inner.len() >= 2).label("nested isolation ok")
+}
+
 pub fn run(r: &mut Runner) {
     r.rule = "part diff: the C08 generator under every cost model (non-strict); the aware run is compared with a dialect that never enters a guard (so every guard yields nil at its declared cost and allocates nothing): equal value, equal allocator counts, equal cost unless a grandfathered guard was entered. \
         part nest: d = 1..25 nested guards around a generated successful inner program with inside-out computed costs: value nil, total cost exactly 1 + 80 + declared (also embedded under c), with LIMIT_SOFTFORK 20 deep succeed and 21+ fail with the depth error, without the flag deeper nests succeed. \
@@ -202,6 +337,25 @@ pub fn run(r: &mut Runner) {
         },
         test_nest,
     );
+    let n = r.n(300, 5_000);
+    r.run_part(
+        "nested-isolation",
+        n,
+        20,
+        |t: &mut Tape| {
+            let k = 2 + t.below(3) as usize;
+            let mut flags = 0;
+            if t.flip() {
+                flags |= F_ENABLE_GC;
+            }
+            if t.chance(1, 3) {
+                flags |= F_LIMIT_SOFTFORK;
+            }
+            IsoCase { ext_outer: t.below(2), ext_inner: t.below(2), inner: (0..k).map(|_| t.below(3) as u8).collect(), flags }
+        },
+        test_iso,
+    );
+    r.require_label("nested isolation ok", 1000);
     for l in ["guard completed", "exempt guard", "depth>20 rejected", "depth20", "depth21", "nest ok exact cost"] {
         r.require_label(l, 50);
     }
